@@ -17,6 +17,14 @@ CHECKS = {
   text="Lean 4 model of parser/numbers.rs (dec/hex/oct/bin integers with underscores and range check, float lexing, special floats, overflow rejection) and of the toml_write number writers; Spec/Ieee.lean is an exact-rational round-to-nearest-even decimal->binary64 conversion used as the meaning of a float literal. Theorems (Props/C11.lean): every integer returned is within i64 in any base, an overflowing literal of either sign is a committed failure, no parsed float is infinite, integer print/parse round trip. Ties: digit classes/prefixes/keywords, the float overflow predicate, radix arms and the f64/f32 writer arms are regenerated from /repo and re-proved each run; differential run against the real crates on i64 boundaries and random bit patterns, range-edge literals in four bases with signs/underscores/leading zeros, float overflow/underflow/halfway literals with both signs, f64 and f32 bit patterns (std's Display text is an input validated per case), every serde integer width at its edges; direct oracles: exact big-integer reference for integer literals, correctly rounded reference for float literals, print/parse bit-for-bit.",
   note="Trusted: Lean kernel, translate.py, sampling correspondence, Rust std Display for integers and floats (validated per case against Spec.Ieee), str::parse::<f64> assumed correctly rounded (cross-checked on every literal), serde's primitive visitors.",
   technique="Lean 4 proof (range/overflow/round-trip) + table re-proof + differential correspondence", design="7/C11"),
+ "C01": dict(
+  text="Lean 4 model of the whole toml_edit document parser (trivia, keys, four string kinds, numbers, date-times, arrays, inline tables with table_from_pairs, the line driver, ParseState with implicit/dotted flags and positions) written as total functions with winnow's backtrack/cut semantics; theorems in Props/C01.lean (entry-point equivalence, BOM, and the token-level parse-after-render theorems imported from C10/C11/C12; the document-level completeness/soundness statements are staged, see DESIGN 7/C01). Ties: every byte class, delimiter, keyword, escape arm, date-time bound, LIMIT and number-parser arm is regenerated from /repo and re-proved equal to the ABNF each run; the model is run against five real entry points (ImDocument::parse, DocumentMut, toml::from_str, toml_edit::de::from_str, from_slice) on the toml-test 1.0.0 corpus with its verdicts, grammar-generated valid documents in every lexical variant, the exhaustive 256-byte x 40-slot sweep, byte mutations, truncations at every byte, limit literals and arbitrary bytes; a verdict difference between implementation and model, or between entry points, or against the corpus/generator expectation is reported with the text.",
+  note="Trusted: Lean kernel, translate.py, sampling correspondence; winnow combinators and std UTF-8 validation are modelled. The model is the oracle for mutated texts (its agreement with the unchanged implementation is what the correspondence establishes); theorems so far cover the lexical layer, not yet the full document grammar.",
+  technique="Lean 4 model + token-level proofs + table re-proof + differential correspondence (5 entry points)", design="7/C01"),
+ "C02": dict(
+  text="Same model and run as C01, judged on data: the decoded tree (keys, nesting, order, table flags and positions, every scalar's exact value, floats by bit pattern, date-times field by field) of the implementation is compared with the model's tree, with the generator's intended tree (an independent reference: the generator knows what it meant to write, floats through an exact-rational IEEE rounding), and across toml_edit / toml::Table / slice routes. Theorems: string decoding for every written spelling (from C10), integer and date-time value theorems (C11, C12), Spec.Ieee as the float meaning.",
+  note="Trusted: as C01; Rust's str::parse::<f64> is cross-checked against Spec.Ieee on every generated float. Key order of implicit-then-explicit tables compared up to permutation (convention K2).",
+  technique="Lean 4 model + value theorems + generator-as-reference + differential correspondence", design="7/C02"),
 }
 
 NA = {}
